@@ -46,6 +46,7 @@ type pathState struct {
 	pendAsserts []pendingAssert
 	pc          []*Term
 	startModel  map[string]uint64
+	allocs      []*Term
 }
 
 func newPathState(prefix []Decision, kept int) *pathState {
@@ -283,14 +284,26 @@ func (m *Machine) haveModel() bool {
 		ps.model = map[string]uint64{}
 		return true
 	}
-	if m.solver.Check() != Sat {
-		ps.noModel = true
-		return false
-	}
 	names := ps.vars
 	sorts := make([]Sort, len(names))
 	for i, n := range names {
 		sorts[i] = ps.varSorts[n]
+	}
+	r := m.solver.Check()
+	if r == Unknown && m.oneshot != nil && m.solver.Errors == 0 {
+		m.solver.Unknowns--
+		m.solver.Retried++
+		_, vals := m.oneshot.OneShot(append([]*Term(nil), ps.pc...), names, sorts)
+		if vals == nil {
+			ps.noModel = true
+			return false
+		}
+		ps.model = vals
+		return true
+	}
+	if r != Sat {
+		ps.noModel = true
+		return false
 	}
 	vals, err := m.solver.Values(names, sorts)
 	if err != nil {
@@ -474,7 +487,45 @@ func (m *Machine) reportViolationAt(kind, label, msg string, extra *Term, where 
 		m.solver.Push()
 		m.solver.Assert(extra)
 	}
-	if m.solver.Check() == Sat {
+	chk := m.solver.Check()
+	if chk == Unknown && m.oneshot != nil && m.solver.Errors == 0 {
+		m.solver.Unknowns--
+		m.solver.Retried++
+		terms := append([]*Term(nil), m.ps.pc...)
+		if extra != nil {
+			terms = append(terms, extra)
+		}
+		names := append([]string(nil), m.ps.vars...)
+		sorts := make([]Sort, len(names))
+		for i, n := range names {
+			sorts[i] = m.ps.varSorts[n]
+		}
+		r2, vals := m.oneshot.OneShot(terms, names, sorts)
+		if r2 == Sat && vals != nil {
+			if extra != nil && !extra.IsTrue() {
+				m.solver.Pop(1)
+			}
+			v.Model = vals
+			v.VarOrder = names
+			for id, cond := range m.ps.excepts {
+				if val, ok := EvalTerm(cond, v.Model, map[*Term]uint64{}); ok && val == 1 {
+					v.Except = id
+				}
+			}
+			m.ex.addViolation(v)
+			return
+		}
+		chk = r2
+	}
+	if chk != Sat {
+		if extra != nil && !extra.IsTrue() {
+			m.solver.Pop(1)
+		}
+		m.ps.unknown = true
+		m.ex.noteInconclusive(fmt.Sprintf("candidate violation %s not confirmed: path condition is %s on the full solver (not reported)", label, chk))
+		return
+	}
+	if chk == Sat {
 		names := append([]string(nil), m.ps.vars...)
 		sorts := make([]Sort, len(names))
 		for i, n := range names {
